@@ -302,6 +302,12 @@ func vfC07Scenarios(thorough bool) []*vfGWScenario {
 	// S3: opportunistic grafting every tick
 	mk("oppgraft", "d2og", p6[:5], append(connAll(p6[:5], true), "join:t"),
 		[]string{"hb", "score:a:2", "score:c:2", "score:e:2", "score:b:-1", "graft:e:t", "prune:a:t", "adv:5000"}, d)
+	// S2b: the outbound quota when the cut's selection holds some, but too few, outbound members (Dout = 2)
+	{
+		p8 := []vfPeerCfg{{Name: "a", Proto: "v11", IP: "10.0.0.1"}, {Name: "b", Proto: "v11", IP: "10.0.0.2"}, {Name: "c", Proto: "v12", IP: "10.0.0.3"}, {Name: "d", Proto: "v11", IP: "10.0.0.4"},
+			{Name: "e", Proto: "v11", IP: "10.0.0.5"}, {Name: "f", Proto: "v12", IP: "10.0.0.6", Outbound: true}, {Name: "g", Proto: "v11", IP: "10.0.0.7", Outbound: true}, {Name: "h", Proto: "v11", IP: "10.0.0.8", Outbound: true}}
+		mk("over-dout2", "d5out2", p8, graftAll(p8), []string{"hb", "score:a:2", "score:f:1", "score:g:-1", "prune:h:t", "graft:h:t", "adv:5000"}, d)
+	}
 	// S3a: a heartbeat that cuts an over-subscribed mesh AND grafts opportunistically (every tick), from a state
 	// without any backoff entry for the topic; distinct scores below the opportunistic threshold, so that which
 	// members survive the cut (the explorer's shuffle) decides who is above the median afterwards
